@@ -157,8 +157,9 @@ def main():
     print('c09_hostile: %d cases over %d targets, %d failures in %.1fs' % (cases, len([k for k in stats if ':' not in k]), len(bad), time.time() - t0))
     for b in bad[:20]: print('  FAIL[%s] %s on %s' % (b['target'], b['problem'], b['input'][:100]))
     if not listing_allowed: print('  could not read the except clause of download_listing'); return 3
+    if bad: return 1
     if cases < 5000: return 3
-    return 1 if bad else 0
+    return 0
 
 
 if __name__ == '__main__':
